@@ -67,6 +67,7 @@ CLAIMED.update({
     "C09": _ts("client programs over {start, enqueue (returning / raising tasks), wait for result, stop, restart} cut into windows at every operation, pool sizes max 1-2 (3 thorough), min 0..max, one or two clients", "DESIGN.md 3/C09"),
     "C10": dict(_ts("windows over programs with mutually dependent (gate-blocked) tasks, more work than workers, Thread.start() failures, tasks queued before start(); pool sizes max 1-2 (3 thorough), min 0..max", "DESIGN.md 3/C10"),
                 technique="CrossHair on ThreadPool.__init__ (argument validation / clamping, all ints) + " + TS, engine="TS+CH"),
+    "C11": _ts("lifecycle programs over {start, stop, enqueue, join, join(timeout), wait} up to 10 operations with instantaneous, failing and gate-blocked tasks and a second client, windows at every operation", "DESIGN.md 3/C11"),
     "C16": _ts("executor || registrar || observer programs over one FutureResult, tasks that return or raise, callbacks that return, raise or have the wrong arity, one or two registrations", "DESIGN.md 3/C16"),
 })
 
